@@ -19,8 +19,18 @@ def sub_of(project, tid="sub_f"):
 
 
 def check_pair(before, after, stats):
+    """All functions of the project: None if each is equivalent to its optimized version for all initial states."""
+    for s in before["subs"]:
+        r = check_sub(before, after, stats, s["tid"])
+        if r is not None:
+            r["function"] = s["tid"]
+            return r
+    return None
+
+
+def check_sub(before, after, stats, tid):
     """Returns None if equivalent for all initial states, else a dict describing a natively confirmed or unconfirmed mismatch."""
-    sa, sb = sub_of(before), sub_of(after)
+    sa, sb = sub_of(before, tid), sub_of(after, tid)
     if sa is None or sb is None:
         return {"what": "function missing after optimization", "confirmed": True, "model": None}
     try:
@@ -39,7 +49,7 @@ def check_pair(before, after, stats):
 
 
 def changed(a, b):
-    return json.dumps(sub_of(a), sort_keys=True) != json.dumps(sub_of(b), sort_keys=True)
+    return json.dumps(a["subs"], sort_keys=True) != json.dumps(b["subs"], sort_keys=True)
 
 
 def run(prop, tier):
@@ -122,7 +132,7 @@ def run(prop, tier):
                         culprit = pn
                         break
             key = "%s/%s" % (culprit, kind)
-            path = save_replay(prop, "%s_%s_%d" % (culprit, kind, n_checked), {"property": prop, "engine": "tv", "program": inp, "state": res.get("state"), "choices": res.get("choices", []), "what": res["what"], "pass": culprit,
+            path = save_replay(prop, "%s_%s_%d" % (culprit, kind, n_checked), {"property": prop, "engine": "tv", "program": inp, "state": res.get("state"), "choices": res.get("choices", []), "what": res["what"], "pass": culprit, "function": res.get("function", "sub_f"),
                                                                    "trace_before": res.get("trace_before"), "trace_after": res.get("trace_after")})
             violations.append({"key": key, "what": "%s changes behaviour (%s): %s | before: %s | after: %s" % (culprit, kind, res["what"], res.get("trace_before"), res.get("trace_after")), "replay": path})
     uniq = {}
@@ -143,7 +153,7 @@ def run(prop, tier):
         "queries_discharged": stats.get("queries", 0),
         "solver_s": round(stats.get("solver_s", 0.0), 1),
         "functions_encoded": ["Project::normalize_basic + normalize_optimize (real code, run natively by the driver)", "each of the five passes alone"],
-        "bounds": "functions of <= 7 blocks, <= 6 defs per block, expression depth <= 4 (+ pass-internal growth), paths of <= %d block visits (loops cut there, compared as prefixes), 64-bit pointers, little endian; "
+        "bounds": "every function of the project (main function of <= 7 blocks, callee of <= 3 blocks) compared with its optimized version; functions of <= 7 blocks, <= 6 defs per block, expression depth <= 4 (+ pass-internal growth), paths of <= %d block visits (loops cut there, compared as prefixes), 64-bit pointers, little endian; "
                   "for every generated program ALL initial register values, ALL memory contents and ALL call effects are solver variables" % MAX_VISITS,
         "inconclusive": inconclusive[:20],
         "explanation": "program space: %d deterministic templates + seeded random programs; state space: decided by z3 per program" % n_templates,
@@ -179,7 +189,8 @@ def replay(prop, path):
     for k in ("regs", "sp"):
         before.setdefault(k, inp[k]); after.setdefault(k, inp[k])
     ms = T.ModelState(None, d.get("state") or {"regs": {}, "mem": {}, "uf": {}})
-    ta, tb = T.concrete_traces(before, sub_of(before), after, sub_of(after), ms, tuple(d.get("choices", [])), MAX_VISITS)
+    fn = d.get("function", "sub_f")
+    ta, tb = T.concrete_traces(before, sub_of(before, fn), after, sub_of(after, fn), ms, tuple(d.get("choices", [])), MAX_VISITS)
     idx = T.traces_differ(ta, tb)
     if idx is not None:
         print("VIOLATION property=%s replay=%s" % (prop, path))
